@@ -20,6 +20,12 @@ Reading of the statement.
   firmly-in-force scope the parameter lay throughout has been sent that value.
 * `QuiescentLastEqCache`: when nothing is in progress, the last update a connection holds for a parameter
   firmly in scope equals the cache.
+* `OnlyExported`: a scope is made of exported parameters of exported modules; nothing else is ever delivered.
+* `TablesFrame`, `TablesOwn` ("the scopes of other connections are unaffected", on the dispatcher's tables): an action changes
+  only the table row of the connection whose request thread acts — an updater none —, and every entry stands for an
+  activation of that connection still possibly in force.
+* `RepliesMatch`: well-formedness of the trace (a reply answers the open request); used to name the scope in the index form
+  of `SnapshotComplete`.
 -/
 namespace Frappy.Spec.C08
 open Frappy.Activate
